@@ -106,7 +106,7 @@ func NewPreambleStore(options ...func(store *Store)) (*Store, error) {
 
 func (store *Store) CreatePreamble() error {
 	store.mut.Lock()
-	store.mut.Unlock()
+	defer store.mut.Unlock()
 
 	// Get current state.
 	state := internal.FilterExpiredKeys(store.clock.Now(), store.getStateFunc())
